@@ -70,6 +70,36 @@ def cot_families(r, shapes):
     yield 'randn * 2^-40', [torch.tensor(r.standard_normal(s)) * 2.0 ** -40 for s in shapes]
 
 
+def _flat_tensors(o):
+    if o is None: return []
+    if torch.is_tensor(o): return [o]
+    out = []
+    for t in o: out += _flat_tensors(t)
+    return out
+
+
+def pow2_homog(mk, args, plan=((torch.float64, (-545, 400)), (torch.float32, (-80, 60)))):
+    """A LINEAR transform commutes exactly with a power-of-two scale as long as nothing under- or overflows (every product and sum is
+    scaled exactly), so f(2^e x) must be 2^e f(x) bit for bit (up to the underflow threshold of the dtype): very small and very large data are the same transform.  mk(dtype) gives a function from a list
+    of tensors of that dtype to a (nested) structure of tensors (a module converted with .to(dtype)).  Returns a description of the first difference, or None."""
+    for dt, exps in plan:
+        base = [a.to(dt) for a in args]
+        f = mk(dt)
+        with torch.no_grad():
+            y0 = _flat_tensors(f(base))
+            for e in exps:
+                s = 2.0 ** e
+                ys = _flat_tensors(f([a * s for a in base]))
+                if len(ys) != len(y0):
+                    return 'the transform of 2^%d x (%s) has %d outputs, that of x has %d' % (e, dt, len(ys), len(y0))
+                for k, (a, b) in enumerate(zip(y0, ys)):
+                    # bitwise, except for results that fall below the smallest normal number of the dtype (gradual underflow rounds there)
+                    if a.shape != b.shape or (a.numel() and float((a * s - b).abs().max()) > 4096 * torch.finfo(dt).tiny * max(1.0, s)):
+                        rel = float(((a * s - b).abs().max() / s)) if a.shape == b.shape and a.numel() else float('nan')
+                        return 'output %d of the transform of 2^%d x (%s) is not 2^%d times the output for x (difference %.3g in units of the scale)' % (k, e, str(dt).replace('torch.', ''), e, rel)
+    return None
+
+
 SHRINK_KEYS = [('J', 1), ('nops', 1), ('H', 2), ('W', 2), ('N', 2), ('S', 8), ('C', 1), ('nthreads', 1)]
 def generic_shrink(mod, cfg, fail, is_known, budget=40):
     """Greedy shrinking of a failing oracle configuration: lower the size-like integer fields while the SAME kind of failure
